@@ -329,6 +329,22 @@ def main(root, args):
         if want != have:
             violations.append(("extracted-fact", {"what": "the harness call table and the extracted exported functions differ",
                                                   "only_in_source": sorted(want - have), "only_in_harness": sorted(have - want)}))
+    # C10: the harness's nil table must cover exactly the extracted exported functions that the
+    # theorem C10_ctor_table speaks about (all but the hand-written exemptions of Props/C10.lean)
+    if pid == "C10" and ext_detail and res is not None:
+        want = set((ext_detail.get("summary") or {}).get("ctors", {}).get("exported_names") or [])
+        try:
+            src = open(os.path.join(root, "lean", "ErrModel", "Props", "C10.lean")).read()
+            blk = src[src.index("def nilExempt"):]
+            blk = blk[:blk.index("]")]
+            exempt = set(re.findall(r'b!"([^"]*)"', blk))
+        except Exception:
+            exempt = set()
+        want -= exempt
+        have = set((res.get("extra") or {}).get("c10_table_names") or [])
+        if want and not want <= have:
+            violations.append(("extracted-fact", {"what": "exported constructors of the source that the harness's nil table does not call",
+                                                  "only_in_source": sorted(want - have)}))
     if ext_detail and ext_detail.get("violations"):
         for v in ext_detail["violations"]:
             violations.append(("extracted-fact", v))
